@@ -498,7 +498,12 @@ func stripFirstLineComment(chunk []byte) ([]byte, bool) {
 	}
 	for i, b := range chunk {
 		if b == '\n' || b == '\r' {
-			return chunk[i+1:], true
+			// "\r\n" and "\n\r" are one end of line, as for the scanner
+			j := i + 1
+			if j < len(chunk) && chunk[j] != b && (chunk[j] == '\n' || chunk[j] == '\r') {
+				j++
+			}
+			return chunk[j:], true
 		}
 	}
 	return nil, true
